@@ -67,9 +67,9 @@ database: they hold payloads). -/
 theorem hookTransfer_iter (σ : Leaves) (reg : Nat → Option (List Row)) (t : Rel) (dest : Engine)
     (matAs : Option String) (s : ProcState) (hd : dest.kind = .iter)
     (hk : t.engine.kind = .iter) (hio : t.IterOKs s.st) (hwf : t.WF) (htr : t.Truthful σ)
-    (hkd : keyDetermined σ t = true) (hreg : t.RegOK σ reg) (hs : StoreOK σ reg s.st) :
+    (hkd : keyDetermined σ t = true) (hreg : t.RegOK σ reg) (hs : StoreOK σ reg s.st) (hac : t.Acyclic) :
     ∃ s', (hookTransfer σ t dest matAs) s = (.ok (.iter (.seq (sem σ t))), s') ∧ StoreOK σ reg s'.st ∧
-      s'.sq = s.sq ∧ s'.nextTemp = s.nextTemp ∧ PayMono s.st s'.st ∧ PayNew t s.st s'.st := by
+      s'.sq = s.sq ∧ s'.nextTemp = s.nextTemp ∧ PayMono s.st s'.st ∧ PayNew t s.st s'.st ∧ PayKeep s.st s'.st := by
   obtain ⟨it, st', h1, h2, h3, h4, h5⟩ : ∃ it st', exec σ t.engine t { s.st with log := [] } = .ok (it, st') ∧
       it.rows σ = .ok (sem σ t) ∧ StoreOK σ reg st' ∧ PayMono s.st st' ∧ PayNew t s.st st' := by
     have hm0 : PayMono s.st { s.st with log := [] } := PayMono.of_payloads_eq rfl
@@ -83,7 +83,9 @@ theorem hookTransfer_iter (σ : Leaves) (reg : Nat → Option (List Row)) (t : R
     StateT.get, set, StateT.set, modify, modifyGet, MonadStateOf.modifyGet, StateT.modifyGet, MonadState.modifyGet,
     liftM, monadLift, MonadLift.monadLift, ExceptT.lift, pure,
     ExceptT.pure, StateT.pure, Functor.map, StateT.map, hk, hd, h1, h2]
-  exact ⟨_, rfl, h3.of_payloads_eq rfl, rfl, rfl, fun o ho => h4 o ho, fun o ho => h5 o ho⟩
+  have hfr := exec_frame σ t t.engine _ it st' hac h1
+  exact ⟨_, rfl, h3.of_payloads_eq rfl, rfl, rfl, fun o ho => h4 o ho, fun o ho => h5 o ho,
+    fun o p hp => hfr.mono o p hp⟩
 
 theorem run_ok_inj {α β : Type} {a a' : α} {e : Type} {s s' : β}
     (h : ((Except.ok a : Except e α), s) = (Except.ok a', s')) : a = a' ∧ s = s' := by
@@ -154,6 +156,8 @@ structure TreeInv (σ : Leaves) (reg : Nat → Option (List Row)) (sq0 : SqlStat
   fresh : ∀ o, s.nextTemp ≤ o → sq0.payload o = none
   /-- nothing is stored under allocation ids that have not been handed out yet -/
   freshSt : ∀ o, s.nextTemp ≤ o → s.st.payload o = none
+  /-- no Materialization object occurs inside its own upstream tree -/
+  acyc : x.Acyclic
 
 theorem matOids_below {n : Nat} : (t : Rel) → t.markersBelow n → ∀ o, o ∈ t.matOids → o < n
   | .leaf .., _, _, ho => by simp [Rel.matOids] at ho
@@ -182,6 +186,37 @@ theorem freshSt_of_new {t : Rel} {st st' : ExecState} {n n' : Nat} (hb : t.marke
     · have := matOids_below t hb o h
       omega
 
+/-- Payloads present after processing were there before, sit on a Materialization of the INPUT tree, or on a node the
+Processor created (an allocation id it handed out: `n ≤ o`). -/
+def PayNewP (t : Rel) (n : Nat) (s s' : ExecState) : Prop :=
+  ∀ o, (s'.payload o).isSome = true → (s.payload o).isSome = true ∨ o ∈ t.matOids ∨ n ≤ o
+
+theorem PayNewP.refl (t : Rel) (n : Nat) (s : ExecState) : PayNewP t n s s := fun _ h => Or.inl h
+
+theorem PayNewP.of_new {t : Rel} {s s' : ExecState} (n : Nat) (h : PayNew t s s') : PayNewP t n s s' :=
+  fun o ho => (h o ho).imp id Or.inl
+
+theorem PayNewP.cons {t : Rel} {n : Nat} {s s1 : ExecState} (h : PayNewP t n s s1) (o0 : Nat) (it : Iterable)
+    (ev : List Nat) (ho0 : o0 ∈ t.matOids ∨ n ≤ o0) :
+    PayNewP t n s { s1 with payloads := (o0, it) :: s1.payloads, evals := ev } := by
+  intro o ho
+  by_cases hoo : o = o0
+  · rw [hoo]; exact Or.inr ho0
+  · have hne : (o0 == o) = false := by simpa using fun h => hoo h.symm
+    exact h o (by simpa [ExecState.payload, List.find?_cons, hne] using ho)
+
+theorem PayNewP.trans {t1 t2 t : Rel} {n m : Nat} {a b c : ExecState} (h1 : PayNewP t1 n a b) (h2 : PayNewP t2 m b c)
+    (hnm : n ≤ m) (s1 : ∀ o, o ∈ t1.matOids → o ∈ t.matOids ∨ n ≤ o)
+    (s2 : ∀ o, o ∈ t2.matOids → o ∈ t.matOids ∨ n ≤ o) : PayNewP t n a c := by
+  intro o ho
+  rcases h2 o ho with h | h | h
+  · rcases h1 o h with h | h | h
+    · exact Or.inl h
+    · exact Or.inr (s1 o h)
+    · exact Or.inr (Or.inr h)
+  · exact Or.inr (s2 o h)
+  · exact Or.inr (Or.inr (Nat.le_trans hnm h))
+
 /-- Re-applying the operation of an existing node to the processed target (`operation.apply(new_target)` inside one
 iteration engine). -/
 theorem reapply_iter (σ : Leaves) (reg : Nat → Option (List Row)) (st : Store) (op : UOp) (t x : Rel) (c : Cols)
@@ -192,7 +227,8 @@ theorem reapply_iter (σ : Leaves) (reg : Nat → Option (List Row)) (st : Store
     (hcols : ∀ u, u ∈ x.columns ↔ u ∈ t.columns) (hk : x.engine.kind = .iter)
     (h : applyOp st defaultFuel (.u op) x {} = .ok r) :
     TreeInv σ reg sq0 (r.get x) s ∧ (r.get x).IterOKs s.st ∧ sem σ (r.get x) = sem σ (Rel.unary op t c) ∧
-      (∀ u, u ∈ (r.get x).columns ↔ u ∈ c) ∧ (r.get x).engine = x.engine := by
+      (∀ u, u ∈ (r.get x).columns ↔ u ∈ c) ∧ (r.get x).engine = x.engine ∧
+      (∀ o, o ∈ (r.get x).matOids → o ∈ x.matOids) := by
   obtain ⟨hwt, hc, hop⟩ := hwf
   rw [defaultFuel_eq, applyOp_iter st 99998 op x hk] at h
   cases hbeg : op.beginApply x none with
@@ -222,14 +258,19 @@ theorem reapply_iter (σ : Leaves) (reg : Nat → Option (List Row)) (st : Store
           rw [hc] at this
           simpa [UOp.appliedColumns] using this
         · exact finishApply_kd σ x o' r X.kd (by simpa using hdd) h
-      refine ⟨⟨f.wf, f.truthful, hkd', ?_, ?_, X.store, X.sq, ?_, X.fresh, X.freshSt⟩, ?_,
-        by rw [← hsemEq]; exact f.sem_eq, fun u => (f.cols u).trans (hcolsEq u), f.engine⟩
+      refine ⟨⟨f.wf, f.truthful, hkd', ?_, ?_, X.store, X.sq, ?_, X.fresh, X.freshSt, ?_⟩, ?_,
+        by rw [← hsemEq]; exact f.sem_eq, fun u => (f.cols u).trans (hcolsEq u), f.engine,
+        finishApply_pres (fun y => ∀ o, o ∈ y.matOids → o ∈ x.matOids) (fun _ => True) (fun _ => True)
+          (fun up t c hp => ⟨hp, trivial⟩) (fun op t c hp _ _ => hp) (fun _ _ _ _ _ _ => trivial) x o' r
+          (fun _ h => h) trivial h⟩
       · exact finishApply_pres (fun y => y.RegOK σ reg) (fun _ => True) (fun _ => True)
           (fun up t c hp => ⟨hp, trivial⟩) (fun op t c hp _ _ => hp) (fun _ _ _ _ _ _ => trivial) x o' r X.regOK trivial h
       · exact finishApply_pres (fun y => y.markersBelow s.nextTemp) (fun _ => True) (fun _ => True)
           (fun up t c hp => ⟨hp, trivial⟩) (fun op t c hp _ _ => hp) (fun _ _ _ _ _ _ => trivial) x o' r X.below trivial h
       · exact finishApply_pres (fun y => y.sqFree sq0) (fun _ => True) (fun _ => True)
           (fun up t c hp => ⟨hp, trivial⟩) (fun op t c hp _ _ => hp) (fun _ _ _ _ _ _ => trivial) x o' r X.free trivial h
+      · exact finishApply_pres (fun y => y.Acyclic) (fun _ => True) (fun _ => True)
+          (fun up t c hp => ⟨hp, trivial⟩) (fun op t c hp _ _ => hp) (fun _ _ _ _ _ _ => trivial) x o' r X.acyc trivial h
       · exact finishApply_pres (fun y => y.IterOKs s.st) UOp.execOK UOp.execOK
           (fun up t c hp => by simp only [Rel.IterOKs] at hp; exact ⟨hp.1, hp.2⟩)
           (fun op t c hp hq _ => by simp only [Rel.IterOKs]; exact ⟨hp, hq⟩)
@@ -238,13 +279,14 @@ theorem reapply_iter (σ : Leaves) (reg : Nat → Option (List Row)) (st : Store
       rw [finishApply_identity] at h
       injection h with h; subst h
       have f := noop_sound σ op x X.wf X.truthful hnoop
-      exact ⟨X, hX, by rw [← hsemEq]; exact f.sem_eq, fun u => (f.cols u).trans (hcolsEq u), rfl⟩
+      exact ⟨X, hX, by rw [← hsemEq]; exact f.sem_eq, fun u => (f.cols u).trans (hcolsEq u), rfl, fun _ h => h⟩
 
 theorem rechain_iter (σ : Leaves) (reg : Nat → Option (List Row)) (st : Store) (l r : Rel) (s : ProcState) (b : BRes)
     (L : TreeInv σ reg sq0 l s) (R : TreeInv σ reg sq0 r s) (hL : l.IterOKs s.st) (hR : r.IterOKs s.st)
     (hk : l.engine.kind = .iter) (h : binaryApply st defaultFuel .chain l r = .ok b) :
     TreeInv σ reg sq0 (b.get l r) s ∧ (b.get l r).IterOKs s.st ∧ sem σ (b.get l r) = sem σ l ++ sem σ r ∧
-      (∀ u, u ∈ (b.get l r).columns ↔ u ∈ l.columns) ∧ (b.get l r).engine = l.engine := by
+      (∀ u, u ∈ (b.get l r).columns ↔ u ∈ l.columns) ∧ (b.get l r).engine = l.engine ∧
+      (∀ o, o ∈ (b.get l r).matOids → o ∈ l.matOids ∨ o ∈ r.matOids) := by
   have hfuel : defaultFuel = 99999 + 1 := rfl
   rw [hfuel, binaryApply] at h
   simp only [chainBeginApply] at h
@@ -257,12 +299,14 @@ theorem rechain_iter (σ : Leaves) (reg : Nat → Option (List Row)) (st : Store
       subst h
       have hceq := (Cols.seteq_iff _ _).mp hc
       refine ⟨⟨⟨L.wf, R.wf, rfl, hceq⟩, ⟨L.truthful, R.truthful⟩, ?_,
-        ⟨L.regOK, R.regOK⟩, ⟨L.below, R.below⟩, L.store, L.sq, ⟨L.free, R.free⟩, L.fresh, L.freshSt⟩,
-        ⟨hL, hR, heq, trivial⟩, ?_, ?_, ?_⟩
+        ⟨L.regOK, R.regOK⟩, ⟨L.below, R.below⟩, L.store, L.sq, ⟨L.free, R.free⟩, L.fresh, L.freshSt, ⟨L.acyc, R.acyc⟩⟩,
+        ⟨hL, hR, heq, trivial⟩, ?_, ?_, ?_, ?_⟩
       · simp [BRes.get, keyDetermined, L.kd, R.kd]
       · simp [sem, BRes.get]
       · intro u; simp [BRes.get, Rel.columns]
       · simp [BRes.get, Rel.engine]
+      · intro o ho
+        simpa [BRes.get, Rel.matOids] using ho
     · simp [hc, bind, Except.bind] at h
 
 theorem MultiIter.kind : (t : Rel) → t.MultiIter → t.engine.kind = .iter
@@ -289,6 +333,12 @@ structure ProcMultiOK (σ : Leaves) (reg : Nat → Option (List Row)) (sq0 : Sql
   /-- a Transfer that had to be processed comes back as a new Transfer to the same destination -/
   xfer : ∀ o d t0, t = .transfer o d t0 → (matAs.isSome = true → b = true) ∧
     ∀ x, res = .new x → ∃ f t', x = .transfer f d t' ∧ t'.engine = t0.engine
+  /-- payloads were added only to Materializations of the input tree and to nodes the Processor created -/
+  newp : PayNewP t s.nextTemp s.st s'.st
+  /-- the Materializations of the returned tree are the input's or new ones -/
+  mats : ∀ o, o ∈ (res.get t).matOids → o ∈ t.matOids ∨ s.nextTemp ≤ o
+  /-- write-once: every payload that was there is still there, the same object -/
+  keep : PayKeep s.st s'.st
 
 theorem payloadThrough_temp (s : ProcState) (n : Nat) : (t : Rel) →
     payloadThrough { s with nextTemp := n } t = payloadThrough s t
@@ -457,7 +507,7 @@ theorem TreeInv.same {σ : Leaves} {reg reg' : Nat → Option (List Row)} {t : R
     (hs : StoreOK σ reg' s'.st) (hq : s'.sq = sq0) (hfs : ∀ o, s'.nextTemp ≤ o → s'.st.payload o = none) :
     TreeInv σ reg' sq0 t s' :=
   ⟨T.wf, T.truthful, T.kd, RegOK_ext σ he t T.regOK T.below, markersBelow_mono hn t T.below, hs, hq, T.free,
-    fun o ho => T.fresh o (Nat.le_trans hn ho), hfs⟩
+    fun o ho => T.fresh o (Nat.le_trans hn ho), hfs, T.acyc⟩
 
 
 theorem process_multi_iter (σ : Leaves) (h0 : sq0.payload 0 = none) :
@@ -480,13 +530,13 @@ theorem process_multi_iter (σ : Leaves) (h0 : sq0.payload 0 = none) :
       injection h1 with h1 hb
       subst h1; subst h2; subst hb
       exact ⟨reg, RegExt.refl _ _, T, hpl, PayMono.refl _, rfl, fun _ => Iff.rfl, rfl, Nat.le_refl _,
-        fun _ => payloadThrough_isSome s _ hc, fun _ _ _ hh => by cases hh⟩
+        fun _ => payloadThrough_isSome s _ hc, (fun _ _ _ hh => by cases hh), PayNewP.refl _ _ _, (fun _ h => Or.inl h), PayKeep.refl _⟩
   | .select .., _, _, _, _, hm, _, _, _, _, _, _, _ => by cases hm
   | .mat oid name target, fuel, matAs, s, reg, hm, hsql, T, hf, res, b, s', h => by
     obtain ⟨hek, hcase⟩ := hm
     rcases hcase with ⟨hp, hio⟩ | ⟨hmt, hxo⟩
     · obtain ⟨s'', h', P⟩ := process_plain_iter σ reg target.engine hek (Rel.mat oid name target) fuel matAs s
-        hp hio T.wf T.truthful T.kd T.regOK T.store (by rw [T.sq]; exact T.free) hf
+        hp hio T.wf T.truthful T.kd T.regOK T.store (by rw [T.sq]; exact T.free) T.acyc hf
       rw [h'] at h
       obtain ⟨h1, h2⟩ := run_ok_inj h
       injection h1 with h1 hb
@@ -494,7 +544,8 @@ theorem process_multi_iter (σ : Leaves) (h0 : sq0.payload 0 = none) :
       exact ⟨reg, RegExt.refl _ _, T.same (RegExt.refl _ _) (Nat.le_of_eq P.temp.symm) P.store (P.sq.trans T.sq)
           (freshSt_of_new T.below (Nat.le_of_eq P.temp.symm) T.freshSt P.new),
         IterOKs.of_iterOK _ (Rel.mat oid name target) hio, P.mono, rfl, fun _ => Iff.rfl, rfl,
-        Nat.le_of_eq P.temp.symm, fun _ => payloadThrough_isSome _ _ (P.cached rfl), fun _ _ _ hh => by cases hh⟩
+        Nat.le_of_eq P.temp.symm, fun _ => payloadThrough_isSome _ _ (P.cached rfl), (fun _ _ _ hh => by cases hh),
+        PayNewP.of_new _ P.new, (fun _ h => Or.inl h), P.keep⟩
     · -- a materialization directly after a transfer
       cases fuel with
       | zero => simp [Rel.size] at hf
@@ -523,10 +574,11 @@ theorem process_multi_iter (σ : Leaves) (h0 : sq0.payload 0 = none) :
               | none => simp [Rel.oid, hp] at hc
               | some _ => rfl
             exact ⟨reg, RegExt.refl _ _, T, Or.inl hpay, PayMono.refl _, rfl, fun _ => Iff.rfl, rfl, Nat.le_refl _,
-              fun _ => payloadThrough_isSome _ _ hc, fun _ _ _ hh => by cases hh⟩
+              fun _ => payloadThrough_isSome _ _ hc, (fun _ _ _ hh => by cases hh), PayNewP.refl _ _ _, (fun _ h => Or.inl h),
+              PayKeep.refl _⟩
           | false =>
             have Tt : TreeInv σ reg sq0 (Rel.transfer o1 d t0) s :=
-              ⟨T.wf, T.truthful, T.kd, T.regOK.2, T.below.2, T.store, T.sq, T.free.2, T.fresh, T.freshSt⟩
+              ⟨T.wf, T.truthful, T.kd, T.regOK.2, T.below.2, T.store, T.sq, T.free.2, T.fresh, T.freshSt, T.acyc.2⟩
             cases hr0 : (processRec σ n (Rel.transfer o1 d t0) (some name)).run.run s with
             | mk r1 s1 =>
               have hr := hr0
@@ -547,6 +599,17 @@ theorem process_multi_iter (σ : Leaves) (h0 : sq0.payload 0 = none) :
                 have hregoid : reg1 oid = some (sem σ (Rel.transfer o1 d t0)) := by
                   rw [hext oid hoid]; exact T.regOK.1
                 have hoid1 : oid < s1.nextTemp := Nat.lt_of_lt_of_le hoid P.temp
+                have hnone1 : s1.st.payload oid = none := by
+                  cases hp1 : s1.st.payload oid with
+                  | none => rfl
+                  | some p =>
+                    rcases P.newp oid (by simp [hp1]) with hh | hh | hh
+                    · rw [payloadOf_free s (Rel.mat oid name (Rel.transfer o1 d t0)) (by rw [T.sq]; exact T.free.1)] at hc
+                      cases hp0 : s.st.payload oid with
+                      | none => rw [hp0] at hh; cases hh
+                      | some q => simp [Rel.oid, hp0] at hc
+                    · exact absurd hh T.acyc.1
+                    · omega
                 cases nt with
                 | same =>
                   -- the Transfer already held a payload: it is handed on
@@ -569,7 +632,8 @@ theorem process_multi_iter (σ : Leaves) (h0 : sq0.payload 0 = none) :
                     have hst : StoreOK σ reg1 (s1.attach oid (.iter it)).st :=
                       StoreOK.cons P.inv.store oid it _ hi hregoid hrows
                     refine ⟨reg1, hext, T.same hext P.temp hst P.inv.sq ?_, Or.inl ?_, ?_, rfl, fun _ => Iff.rfl,
-                      rfl, P.temp, fun _ => payloadThrough_isSome _ _ ?_, fun _ _ _ hh => by cases hh⟩
+                      rfl, P.temp, fun _ => payloadThrough_isSome _ _ ?_, (fun _ _ _ hh => by cases hh), ?_,
+                      (fun _ h => Or.inl h), P.keep.trans (PayKeep.cons s1.st oid it s1.st.evals hnone1)⟩
                     · intro o ho
                       have hne : (oid == o) = false := by
                         have : s1.nextTemp ≤ o := ho
@@ -579,6 +643,8 @@ theorem process_multi_iter (σ : Leaves) (h0 : sq0.payload 0 = none) :
                     · simp [ProcState.attach, ExecState.payload]
                     · exact P.mono.trans (PayMono.cons s1.st oid it s1.st.evals)
                     · simp [ProcState.attach, ProcState.payloadOf, Rel.oid, ExecState.payload, Res.get]
+                    · exact PayNewP.cons (fun o ho => (P.newp o ho).imp id (Or.imp (fun h => List.mem_cons_of_mem _ h) id))
+                        oid it s1.st.evals (Or.inl (by simp [Rel.matOids]))
                 | new x =>
                   obtain ⟨f1, t', hx, het'⟩ := hshape x rfl
                   subst hx
@@ -634,8 +700,9 @@ theorem process_multi_iter (σ : Leaves) (h0 : sq0.payload 0 = none) :
                           rw [← hk]; exact P.inv.below
                         refine ⟨regSet reg1 (k + 1) (sem σ (Rel.transfer f1 d t')),
                           hext.trans (regSet_ext _ _ _) hle, ?_, Or.inl ?_, ?_, ?_, ?_, ?_, ?_,
-                          fun _ => payloadThrough_isSome _ _ ?_, fun _ _ _ hh => by cases hh⟩
-                        · refine ⟨P.inv.wf, P.inv.truthful, P.inv.kd, ⟨by simp [regSet], ?_⟩, ⟨?_, ?_⟩, ?_, P.inv.sq, ?_, ?_, ?_⟩
+                          fun _ => payloadThrough_isSome _ _ ?_, (fun _ _ _ hh => by cases hh), ?_, ?_, ?_⟩
+                        · refine ⟨P.inv.wf, P.inv.truthful, P.inv.kd, ⟨by simp [regSet], ?_⟩, ⟨?_, ?_⟩, ?_, P.inv.sq, ?_, ?_, ?_,
+                            ⟨fun hmem => Nat.lt_irrefl _ (matOids_below _ hbelowX _ hmem), P.inv.acyc⟩⟩
                           · exact RegOK_ext σ (regSet_ext _ _ _) _ P.inv.regOK hbelowX
                           · show k + 1 < k + 1 + 1
                             omega
@@ -666,6 +733,20 @@ theorem process_multi_iter (σ : Leaves) (h0 : sq0.payload 0 = none) :
                         · show s.nextTemp ≤ k + 1 + 1
                           omega
                         · simp [ProcState.attach, ProcState.payloadOf, Rel.oid, ExecState.payload, Res.get]
+                        · exact PayNewP.cons (PayNewP.cons
+                            (fun o ho => (P.newp o ho).imp id (Or.imp (fun h => List.mem_cons_of_mem _ h) id))
+                            oid it s1.st.evals (Or.inl (by simp [Rel.matOids]))) (k + 1) it s1.st.evals (Or.inr hle)
+                        · intro o ho
+                          simp only [Res.get, Rel.matOids, List.mem_cons] at ho
+                          rcases ho with ho | ho
+                          · rw [ho]; exact Or.inr hle
+                          · exact (P.mats o (by simpa [Res.get, Rel.matOids] using ho)).imp
+                              (fun h => List.mem_cons_of_mem _ h) id
+                        · refine P.keep.trans ((PayKeep.cons s1.st oid it s1.st.evals hnone1).trans
+                            (PayKeep.cons _ (k + 1) it s1.st.evals ?_))
+                          have hne : (oid == k + 1) = false := by simp; omega
+                          have := P.inv.freshSt (k + 1) (by omega)
+                          simpa [ExecState.payload, List.find?_cons, hne] using this
   | .unary op target c, fuel, matAs, s, reg, hm, hsql, T, hf, res, b, s', h => by
     cases fuel with
     | zero => simp [Rel.size] at hf
@@ -673,7 +754,8 @@ theorem process_multi_iter (σ : Leaves) (h0 : sq0.payload 0 = none) :
       have hkd' : keyDetermined σ target = true := by
         have := T.kd; simp only [keyDetermined, Bool.and_eq_true] at this; exact this.1
       obtain ⟨hmt, hnid, har⟩ := hm
-      have Tt : TreeInv σ reg sq0 target s := ⟨T.wf.1, T.truthful, hkd', T.regOK, T.below, T.store, T.sq, T.free, T.fresh, T.freshSt⟩
+      have Tt : TreeInv σ reg sq0 target s :=
+        ⟨T.wf.1, T.truthful, hkd', T.regOK, T.below, T.store, T.sq, T.free, T.fresh, T.freshSt, T.acyc⟩
       unfold processRec at h
       cases hr0 : (processRec σ n target none).run.run s with
       | mk r1 s1 =>
@@ -699,7 +781,8 @@ theorem process_multi_iter (σ : Leaves) (h0 : sq0.payload 0 = none) :
             injection h1 with h1 hb
             subst h1; subst h2; subst hb
             exact ⟨reg1, hext, T.same hext P.temp P.inv.store P.inv.sq P.inv.freshSt, ⟨P.exec, hnid, har⟩, P.mono, rfl,
-              fun _ => Iff.rfl, rfl, P.temp, (fun hh => by cases hh), fun _ _ _ hh => by cases hh⟩
+              fun _ => Iff.rfl, rfl, P.temp, (fun hh => by cases hh), (fun _ _ _ hh => by cases hh),
+              (fun o ho => by simpa [Rel.matOids] using P.newp o ho), (fun _ h => Or.inl h), P.keep⟩
           | new t' =>
             have hk : t'.engine.kind = .iter := by
               have := P.engine
@@ -716,10 +799,11 @@ theorem process_multi_iter (σ : Leaves) (h0 : sq0.payload 0 = none) :
               obtain ⟨h1, h2⟩ := run_ok_inj h
               injection h1 with h1 hb
               subst h1; subst h2; subst hb
-              obtain ⟨I, hx, hs, hc, he⟩ := reapply_iter σ reg1 s1.store op target t' c s1 r hnid har T.wf T.kd P.inv
+              obtain ⟨I, hx, hs, hc, he, hmo⟩ := reapply_iter σ reg1 s1.store op target t' c s1 r hnid har T.wf T.kd P.inv
                 P.exec P.sem_eq P.cols hk ha
               exact ⟨reg1, hext, I, hx, P.mono, hs, fun u => hc u, he.trans P.engine, P.temp, (fun hh => by cases hh),
-                fun _ _ _ hh => by cases hh⟩
+                (fun _ _ _ hh => by cases hh), (fun o ho => by simpa [Rel.matOids] using P.newp o ho),
+                (fun o ho => by simpa [Rel.matOids, Res.get] using P.mats o (hmo o ho)), P.keep⟩
   | .binary op l r c, fuel, matAs, s, reg, hm, hsql, T, hf, res, b, s', h => by
     cases fuel with
     | zero => simp [Rel.size] at hf
@@ -732,7 +816,8 @@ theorem process_multi_iter (σ : Leaves) (h0 : sq0.payload 0 = none) :
         have hkd := T.kd
         simp only [keyDetermined, Bool.and_eq_true] at hkd
         obtain ⟨hwl, hwr, hcc, hcols⟩ := T.wf
-        have Tl : TreeInv σ reg sq0 l s := ⟨hwl, T.truthful.1, hkd.1, T.regOK.1, T.below.1, T.store, T.sq, T.free.1, T.fresh, T.freshSt⟩
+        have Tl : TreeInv σ reg sq0 l s :=
+          ⟨hwl, T.truthful.1, hkd.1, T.regOK.1, T.below.1, T.store, T.sq, T.free.1, T.fresh, T.freshSt, T.acyc.1⟩
         unfold processRec at h
         cases hr0 : (processRec σ n l none).run.run s with
         | mk r1 s1 =>
@@ -750,7 +835,7 @@ theorem process_multi_iter (σ : Leaves) (h0 : sq0.payload 0 = none) :
               (by simp [Rel.size] at hf; omega) nl lp s1 hr0
             have Tr : TreeInv σ reg1 sq0 r s1 :=
               ⟨hwr, T.truthful.2, hkd.2, RegOK_ext σ hext1 r T.regOK.2 T.below.2,
-                markersBelow_mono P1.temp r T.below.2, P1.inv.store, P1.inv.sq, T.free.2, P1.inv.fresh, P1.inv.freshSt⟩
+                markersBelow_mono P1.temp r T.below.2, P1.inv.store, P1.inv.sq, T.free.2, P1.inv.fresh, P1.inv.freshSt, T.acyc.2⟩
             cases hq0 : (processRec σ n r none).run.run s1 with
             | mk r2 s2 =>
               have hq := hq0
@@ -775,6 +860,13 @@ theorem process_multi_iter (σ : Leaves) (h0 : sq0.payload 0 = none) :
                 have hextAll : RegExt reg reg2 s.nextTemp := hext1.trans hext2 P1.temp
                 have htemp : s.nextTemp ≤ s2.nextTemp := Nat.le_trans P1.temp P2.temp
                 have hsemC : sem σ (Rel.binary .chain l r c) = sem σ l ++ sem σ r := by simp [sem]
+                have hnewp : PayNewP (Rel.binary .chain l r c) s.nextTemp s.st s2.st :=
+                  PayNewP.trans P1.newp P2.newp P1.temp (fun o h => Or.inl (by simp [Rel.matOids, h]))
+                    (fun o h => Or.inl (by simp [Rel.matOids, h]))
+                have hmL : ∀ o, o ∈ (nl.get l).matOids → o ∈ (Rel.binary .chain l r c).matOids ∨ s.nextTemp ≤ o :=
+                  fun o ho => (P1.mats o ho).imp (fun h => by simp [Rel.matOids, h]) id
+                have hmR : ∀ o, o ∈ (nr.get r).matOids → o ∈ (Rel.binary .chain l r c).matOids ∨ s.nextTemp ≤ o :=
+                  fun o ho => (P2.mats o ho).imp (fun h => by simp [Rel.matOids, h]) (fun h => Nat.le_trans P1.temp h)
                 have hempty : ∀ x : Rel, x.WF → x.Truthful σ → x.maxRows = some 0 → sem σ x = [] := by
                   intro x hw ht hmx
                   have := (metadata_truthful σ x hw ht).upper 0 hmx
@@ -783,17 +875,18 @@ theorem process_multi_iter (σ : Leaves) (h0 : sq0.payload 0 = none) :
                     sem σ X = sem σ l ++ sem σ r →
                     (∀ u, u ∈ X.columns ↔ u ∈ l.columns) → X.engine = l.engine →
                     (fl = true → (payloadThrough s2 X).isSome = true) →
+                    (∀ o, o ∈ X.matOids → o ∈ (Rel.binary .chain l r c).matOids ∨ s.nextTemp ≤ o) →
                     (Except.ok (Res.new X, fl), s2) = ((Except.ok (res, b) : Except Err (Res × Bool)), s') →
                     ∃ reg', RegExt reg reg' s.nextTemp ∧ ProcMultiOK σ reg' sq0 (Rel.binary .chain l r c) s matAs res b s' := by
-                  intro X fl IX hxX hsX hcX heX hfX hh
+                  intro X fl IX hxX hsX hcX heX hfX hmX hh
                   obtain ⟨h1, h2⟩ := run_ok_inj hh
                   injection h1 with h1 hb
                   subst h1; subst h2; subst hb
                   exact ⟨reg2, hextAll, IX, hxX, hmono, by rw [hsemC]; exact hsX, fun u => by rw [hcc]; exact hcX u, heX, htemp,
-                    hfX, fun _ _ _ hh => by cases hh⟩
+                    hfX, (fun _ _ _ hh => by cases hh), hnewp, hmX, P1.keep.trans P2.keep⟩
                 by_cases hl0 : (nl.get l).maxRows = some 0
                 · simp only [hl0, if_true, StateT.pure, pure] at h
-                  refine finishNew (nr.get r) rp R' P2.exec ?_ ?_ ?_ P2.flag h
+                  refine finishNew (nr.get r) rp R' P2.exec ?_ ?_ ?_ P2.flag hmR h
                   · rw [P2.sem_eq, ← P1.sem_eq, hempty _ L'.wf L'.truthful hl0]; rfl
                   · intro u; rw [P2.cols u]; exact (hcols u).symm
                   · rw [P2.engine]; exact heng.symm
@@ -801,7 +894,7 @@ theorem process_multi_iter (σ : Leaves) (h0 : sq0.payload 0 = none) :
                   by_cases hr0' : (nr.get r).maxRows = some 0
                   · simp only [hr0', if_true, StateT.pure, pure] at h
                     refine finishNew (nl.get l) lp L' L'x ?_ (fun u => P1.cols u) P1.engine
-                      (fun hh => payloadThrough_mono (P2.inv.sq.trans P1.inv.sq.symm) P2.mono _ (P1.flag hh)) h
+                      (fun hh => payloadThrough_mono (P2.inv.sq.trans P1.inv.sq.symm) P2.mono _ (P1.flag hh)) hmL h
                     rw [P1.sem_eq, ← P2.sem_eq, hempty _ R'.wf R'.truthful hr0']; simp
                   · simp only [hr0', if_false] at h
                     have hk : (nl.get l).engine.kind = .iter := by rw [P1.engine]; exact MultiIter.kind l hml
@@ -815,8 +908,9 @@ theorem process_multi_iter (σ : Leaves) (h0 : sq0.payload 0 = none) :
                       | error e => simp only [hb] at hh; injection hh with h1 _; cases h1
                       | ok bb =>
                         simp only [hb] at hh
-                        obtain ⟨IX, hxX, hsX, hcX, heX⟩ := rechain_iter σ reg2 s2.store _ _ s2 bb L' R' L'x P2.exec hk hb
-                        refine finishNew _ false IX hxX ?_ ?_ ?_ (fun hh => by cases hh) hh
+                        obtain ⟨IX, hxX, hsX, hcX, heX, hmX⟩ := rechain_iter σ reg2 s2.store _ _ s2 bb L' R' L'x P2.exec hk hb
+                        refine finishNew _ false IX hxX ?_ ?_ ?_ (fun hh => by cases hh)
+                          (fun o ho => (hmX o ho).elim (hmL o) (hmR o)) hh
                         · rw [hsX, P1.sem_eq, P2.sem_eq]
                         · intro u; rw [hcX u]; exact P1.cols u
                         · rw [heX]; exact P1.engine
@@ -830,7 +924,7 @@ theorem process_multi_iter (σ : Leaves) (h0 : sq0.payload 0 = none) :
                         subst h1; subst h2; subst hb
                         exact ⟨reg2, hextAll, T.same hextAll htemp P2.inv.store P2.inv.sq P2.inv.freshSt,
                           ⟨L'x, P2.exec, heng, trivial⟩, hmono, rfl, fun _ => Iff.rfl, rfl, htemp, (fun hh => by cases hh),
-                          fun _ _ _ hh => by cases hh⟩
+                          (fun _ _ _ hh => by cases hh), hnewp, (fun _ h => Or.inl h), P1.keep.trans P2.keep⟩
                       | new y =>
                         apply hrebuild
                         simp only [StateT.bind, StateT.map, StateT.get, ExceptT.bindCont, Functor.map, throw,
@@ -865,8 +959,9 @@ theorem process_multi_iter (σ : Leaves) (h0 : sq0.payload 0 = none) :
             simp [ProcState.attach, ProcState.payloadOf, Rel.oid, ExecState.payload, Res.get])),
           (fun o d t0 hh => by
             injection hh with _ hd ht; subst hd; subst ht
-            exact ⟨fun h => h, fun x hx => by injection hx with hx; exact ⟨_, _, hx.symm, rfl⟩⟩)⟩
-        · refine ⟨T.wf, T.truthful, T.kd, ⟨by simp [regSet], ?_⟩, ⟨?_, ?_⟩, ?_, ?_, ?_, ?_, ?_⟩
+            exact ⟨fun h => h, fun x hx => by injection hx with hx; exact ⟨_, _, hx.symm, rfl⟩⟩), ?_,
+          (fun _ h => Or.inl h), ?_⟩
+        · refine ⟨T.wf, T.truthful, T.kd, ⟨by simp [regSet], ?_⟩, ⟨?_, ?_⟩, ?_, ?_, ?_, ?_, ?_, T.acyc⟩
           · exact RegOK_ext σ (by rw [hnt]; exact regSet_ext _ _ _) _ T.regOK.2 T.below.2
           · show s2.nextTemp < s2.nextTemp + 1
             omega
@@ -894,6 +989,12 @@ theorem process_multi_iter (σ : Leaves) (h0 : sq0.payload 0 = none) :
           exact PayMono.cons s.st _ it s.st.evals
         · show s.nextTemp ≤ s2.nextTemp + 1
           omega
+        · show PayNewP _ _ s.st { s2.st with payloads := (s2.nextTemp, it) :: s2.st.payloads }
+          rw [hst]
+          exact PayNewP.cons (PayNewP.refl _ _ _) s2.nextTemp it s.st.evals (Or.inr (Nat.le_of_eq hnt.symm))
+        · show PayKeep s.st { s2.st with payloads := (s2.nextTemp, it) :: s2.st.payloads }
+          rw [hst]
+          exact PayKeep.cons s.st s2.nextTemp it s.st.evals (T.freshSt _ (Nat.le_of_eq hnt.symm))
       unfold processRec at h
       cases hc : (s.payloadOf (Rel.transfer oid dest target)).isSome with
       | true =>
@@ -909,7 +1010,8 @@ theorem process_multi_iter (σ : Leaves) (h0 : sq0.payload 0 = none) :
           | none => simp [Rel.oid, hp] at hc
           | some _ => rfl
         exact ⟨reg, RegExt.refl _ _, T, Or.inl hpay, PayMono.refl _, rfl, fun _ => Iff.rfl, rfl, Nat.le_refl _,
-          fun _ => payloadThrough_isSome _ _ hc, fun _ _ _ _ => ⟨fun _ => rfl, fun _ hx => by cases hx⟩⟩
+          fun _ => payloadThrough_isSome _ _ hc, (fun _ _ _ _ => ⟨fun _ => rfl, fun _ hx => by cases hx⟩),
+          PayNewP.refl _ _ _, (fun _ h => Or.inl h), PayKeep.refl _⟩
       | false =>
        by_cases hji : (Rel.transfer oid dest target).isJoinIdentity = true
        · simp [bind, ExceptT.bind, ExceptT.mk, ExceptT.bindCont, StateT.bind, get, getThe, MonadStateOf.get,
@@ -932,7 +1034,7 @@ theorem process_multi_iter (σ : Leaves) (h0 : sq0.payload 0 = none) :
            rcases hsrc with ⟨hki, hmt⟩ | ⟨hks, hraw, hleaf⟩
            · -- the source lives in an iteration engine
              have Tt : TreeInv σ reg sq0 target s :=
-               ⟨T.wf, T.truthful, T.kd, T.regOK.2, T.below.2, T.store, T.sq, T.free.2 hki, T.fresh, T.freshSt⟩
+               ⟨T.wf, T.truthful, T.kd, T.regOK.2, T.below.2, T.store, T.sq, T.free.2 hki, T.fresh, T.freshSt, T.acyc⟩
              cases hr0 : (processRec σ n target none).run.run s with
              | mk r1 s1 =>
                have hr := hr0
@@ -948,8 +1050,8 @@ theorem process_multi_iter (σ : Leaves) (h0 : sq0.payload 0 = none) :
                  obtain ⟨reg1, hext, P⟩ := process_multi_iter σ h0 target n none s reg hmt (hsql.2 hki) Tt
                    (by simp [Rel.size] at hf; omega) nt fl s1 hr0
                  have hk : (nt.get target).engine.kind = .iter := by rw [P.engine]; exact hki
-                 obtain ⟨s2, hh, h2, hsq, hnt, hm2, hn2⟩ := hookTransfer_iter σ reg1 (nt.get target) dest matAs s1 hdk hk
-                   P.exec P.inv.wf P.inv.truthful P.inv.kd P.inv.regOK P.inv.store
+                 obtain ⟨s2, hh, h2, hsq, hnt, hm2, hn2, hk2⟩ := hookTransfer_iter σ reg1 (nt.get target) dest matAs s1 hdk hk
+                   P.exec P.inv.wf P.inv.truthful P.inv.kd P.inv.regOK P.inv.store P.inv.acyc
                  simp [bind, ExceptT.bind, ExceptT.mk, ExceptT.bindCont, StateT.bind, get, getThe, MonadStateOf.get,
                    StateT.get, liftM, monadLift, MonadLift.monadLift, ExceptT.lift, ExceptT.run, StateT.run, pure,
                    ExceptT.pure, StateT.pure, Functor.map, StateT.map, hc, hnji, hnz, hr, hh, freshTemp,
@@ -967,8 +1069,15 @@ theorem process_multi_iter (σ : Leaves) (h0 : sq0.payload 0 = none) :
                      simp [ProcState.attach, ProcState.payloadOf, Rel.oid, ExecState.payload, Res.get])),
                    (fun o d t0 hh => by
                      injection hh with _ hd ht; subst hd; subst ht
-                     exact ⟨fun h => h, fun x hx => by injection hx with hx; exact ⟨_, _, hx.symm, P.engine⟩⟩)⟩
-                 · refine ⟨P.inv.wf, P.inv.truthful, P.inv.kd, ⟨by simp [regSet], ?_⟩, ⟨?_, ?_⟩, ?_, ?_, ?_, ?_, ?_⟩
+                     exact ⟨fun h => h, fun x hx => by injection hx with hx; exact ⟨_, _, hx.symm, P.engine⟩⟩),
+                   PayNewP.cons (PayNewP.trans P.newp (PayNewP.of_new s1.nextTemp hn2) P.temp
+                     (fun o h => Or.inl (by simpa [Rel.matOids] using h))
+                     (fun o h => (P.mats o h).imp (fun h => by simpa [Rel.matOids] using h) id)) s2.nextTemp _ s2.st.evals
+                     (Or.inr (by rw [hf1]; exact P.temp)),
+                   (fun o ho => (P.mats o (by simpa [Rel.matOids, Res.get] using ho)).imp
+                     (fun h => by simpa [Rel.matOids] using h) id),
+                   P.keep.trans (hk2.trans (PayKeep.cons s2.st s2.nextTemp _ s2.st.evals (hfs2 _ (Nat.le_refl _))))⟩
+                 · refine ⟨P.inv.wf, P.inv.truthful, P.inv.kd, ⟨by simp [regSet], ?_⟩, ⟨?_, ?_⟩, ?_, ?_, ?_, ?_, ?_, P.inv.acyc⟩
                    · exact RegOK_ext σ (regSet_ext _ _ _) _ P.inv.regOK (by rw [hf1]; exact P.inv.below)
                    · show s2.nextTemp < s2.nextTemp + 1
                      omega
@@ -1030,7 +1139,7 @@ theorem process_multi_then_execute (σ : Leaves) (reg : Nat → Option (List Row
     (sq : SqlState) (h0 : sq.payload 0 = none) (hm : t.MultiIter) (hsql : t.SqlSrcOK σ sq) (hwf : t.WF)
     (htr : t.Truthful σ) (hkd : keyDetermined σ t = true) (hreg : t.RegOK σ reg) (hb : t.markersBelow tempBase)
     (hs : StoreOK σ reg st) (hfree : t.sqFree sq) (hfresh : ∀ o, tempBase ≤ o → sq.payload o = none)
-    (hfreshSt : ∀ o, tempBase ≤ o → st.payload o = none) (hf : t.size ≤ defaultFuel)
+    (hfreshSt : ∀ o, tempBase ≤ o → st.payload o = none) (hac : t.Acyclic) (hf : t.size ≤ defaultFuel)
     (res : Res) (ps : ProcState) (h : processTop σ st sq t = (.ok res, ps)) :
     (res.get t).engine = t.engine ∧ (∀ u, u ∈ (res.get t).columns ↔ u ∈ t.columns) ∧
       ∃ it s', exec σ (res.get t).engine (res.get t) ps.st = .ok (it, s') ∧ it.rows σ = .ok (sem σ t) := by
@@ -1047,7 +1156,7 @@ theorem process_multi_then_execute (σ : Leaves) (reg : Nat → Option (List Row
       obtain ⟨h1, h2⟩ := run_ok_inj h
       subst h1; subst h2
       obtain ⟨reg', _, P⟩ := process_multi_iter σ h0 t defaultFuel none { st := st, sq := sq } reg hm hsql
-        ⟨hwf, htr, hkd, hreg, hb, hs, rfl, hfree, hfresh, hfreshSt⟩ hf res0 b s1 hr
+        ⟨hwf, htr, hkd, hreg, hb, hs, rfl, hfree, hfresh, hfreshSt, hac⟩ hf res0 b s1 hr
       refine ⟨P.engine, P.cols, ?_⟩
       have := exec_correctM σ reg' (res0.get t) (res0.get t).engine s1.st P.exec P.inv.wf P.inv.truthful
         P.inv.kd P.inv.regOK P.inv.store rfl
